@@ -332,9 +332,9 @@ deriving Repr
 
 namespace Cfg
 
-def hasMaskSpecific (c : Cfg) : Bool := c.masks.any (fun m => m.fkind != 0)
+def hasMaskSpecific (c : Cfg) : Bool := c.masks.any (fun m => m.fkind == 1 || m.fkind == 2)
 /-- `masksWithSpecificFieldsLists < len(p.config.Masks)` -/
-def globalsUsed (c : Cfg) : Bool := !c.masks.all (fun m => m.fkind != 0)
+def globalsUsed (c : Cfg) : Bool := !c.masks.all (fun m => m.fkind == 1 || m.fkind == 2)
 def hasGlobalIgnore (c : Cfg) : Bool := c.globalsUsed && c.gkind == 1
 def hasGlobalProcess (c : Cfg) : Bool := c.globalsUsed && c.gkind == 2
 def hasProcessOrIgnore (c : Cfg) : Bool := c.hasMaskSpecific || c.hasGlobalIgnore || c.hasGlobalProcess
